@@ -150,6 +150,8 @@ def _gs_add_raw(ga, gb):
 
 
 def int_binop(op, a, b, w, signed, ex=None, pos=None):
+    if isinstance(a, LazySel) and not isinstance(b, LazySel) and op in ('+', '-') and a._forced is None:
+        return LazySel(a.idx, [int_binop(op, c, b, w, signed) for c in a.cells], a.kind, a.w, a.signed)
     a = force(a)
     b = force(b)
     ca, cb = isinstance(a, int), isinstance(b, int)
@@ -232,6 +234,18 @@ def int_binop(op, a, b, w, signed, ex=None, pos=None):
     if op == '&' and (ca or cb):
         val, cst = (gb, a) if ca else (ga, b)
         cst &= mask
+        if val is not None and cst & (cst + 1) == 0 and cst != 0:
+            # mask 2^m-1: value mod 2^m; reduce coefficients mod 2^m, exact when the reduced sum cannot carry
+            m_ = cst + 1
+            terms = {}
+            tot = val.const % m_
+            for k, (g, c) in val.terms.items():
+                cc = c % m_
+                if cc:
+                    terms[k] = (g, cc)
+                    tot += cc
+            if tot < m_:
+                return GSum(w, val.const % m_, terms).const_or_self()
         if val is not None:
             sh = val.binary_shape()
             if sh is not None:
@@ -391,6 +405,8 @@ _fc = [None]
 
 
 def f_binop(fc, op, a, b, ex=None):
+    if isinstance(a, LazySel) and not isinstance(b, LazySel) and op in ('+', '-') and a._forced is None:
+        return LazySel(a.idx, [f_binop(fc, op, c, b, ex) for c in a.cells], a.kind, a.w, a.signed)
     a = force(a)
     b = force(b)
     if isinstance(a, float) and isinstance(b, float):
